@@ -73,8 +73,45 @@ def gen_e2e(tier, seed):
     return cases
 
 
+def timers_monitor(case, il, sl):
+    """Once a close has started (the client's Connection.Close queued, or the server's answered with
+    CloseOk), that frame is the last the client ever queues or writes - whatever timers fire later."""
+    import amqp, hbgen
+    if hbgen.unreliable(il):
+        return None
+    tr = refmon.Trace(case, il)
+    written = b""
+    for k, (o, g) in enumerate(tr.al):
+        for l in g:
+            if l.startswith("wrote ") and l != "wrote -":
+                written += bytes.fromhex(l.split()[1])
+            elif l.startswith("state "):
+                hx_ = l.split("out=")[1]
+                total = written + (bytes.fromhex(hx_) if hx_ != "-" else b"")
+                try:
+                    frs, rest = amqp.split_frames(total)
+                except ValueError as e:
+                    return ("outbound stream is not whole frames: %s" % e, "c08-timers-wire")
+                idx = next((i for i, (ft, ch, p) in enumerate(frs) if ft == 1 and ch == 0 and amqp.method_ids(p) in ((10, 50), (10, 51))), None)
+                if idx is not None and (idx != len(frs) - 1 or rest):
+                    extra = ["type %d on channel %d" % (ft, ch) for ft, ch, _p in frs[idx + 1:]]
+                    return ("after its %s the client queued more: %s (timers fired after the close point)" % (
+                        "Connection.Close" if amqp.method_ids(frs[idx][2]) == (10, 50) else "Connection.CloseOk", ", ".join(extra)), "c08-after-close")
+    return None
+
+
+def gen_timers(tier, seed):
+    import hbgen
+    rng = Rng(seed * 43 + 808)
+    n = 24 if tier == "quick" else 300
+    return [hbgen.session(rng, "k%d" % i, force_close=rng.choice(["client", "client", "server"]), h_choices=(400, 300), steps=(4, 7)) for i in range(n)]
+
+
 def suites(tier, seed):
-    return [Suite("slow-close-e2e", "hbe2e", lambda: gen_e2e(tier, seed), monitor=e2e_monitor, nontrivial=lambda c, il: True, compare=False, shards=4, timeout=120,
+    import hbgen
+    return [Suite("timers-after-close", "machine", lambda: gen_timers(tier, seed), monitor=timers_monitor, nontrivial=lambda c, il: True, canon=hbgen.canon, shards=16, shrink=False, timeout=300,
+                  rule="the REAL I/O loop with its real heartbeat timers (300/400 ms): a client Connection.Close (flushed) or a server Connection.Close early in the session, then sleeps past one and two intervals with HEARTBEAT events, inbound bytes, stalls: the Close / CloseOk stays the last frame queued; exact diff against the Lean ConnHb model on the nominal clock"),
+            Suite("slow-close-e2e", "hbe2e", lambda: gen_e2e(tier, seed), monitor=e2e_monitor, nontrivial=lambda c, il: True, compare=False, shards=4, timeout=120,
                   rule="real connection with heartbeats (1 s; thorough: 1/60, 2/2, off) over the mock transport; Connection::close while the broker takes 2.6 heartbeat intervals to answer CloseOk (it keeps sending heartbeats meanwhile): nothing may follow Connection.Close on the wire (the tx heartbeat timer fires during the wait), close returns Ok"),
             Suite("sessions", "machine", lambda: gen(tier, seed), monitor=monitor, nontrivial=nontrivial, canon=mg.canon_nondet, candidate_ok=mg.candidate_ok,
                   rule="random sessions ending in a client- or server-initiated connection close: 0-6 open channels, consumers, calls in flight, data still buffered behind a transport that takes few bytes, submissions racing the close, frames (heartbeat) arriving right after the close, every reply-code class and random texts")]
